@@ -3,8 +3,8 @@ import json
 
 from .. import enginecheck
 
-QUICK = ['a,r,n,n', 'r,a,n', 'a,L,n,n', 'a,A2L,n,a,n', 'a,A2r,b', 'A2001,n', 'a,A11G,b', 'a,r,a,b,c', 'a,F2,n,n', 'a,F2,a,n,n,n', 'F2,a,X,n,n,n']
-THOROUGH = ['F3,a,X,b,b', 'a,F2,A2,b,b', 'F2,a,a,X,B,c', 'a,r,X,n,n', 'a,A2L,X,b', 'a,a,A3r,b,b', 'A2,r,b,n', 'a,L,a,A2,b', 'a,A2r,a,X,B,c', 'r:u,a,a:u,b,b:u']
+QUICK = ['a,r,n,n', 'r,a,n', 'a,L,n,n', 'a,A2L,n', 'a,A2r,b', 'A2001,n', 'a,A11G,b', 'a,r,a,b,c', 'a,F2,n,n', 'a,F2,a,n,n,n', 'F2,a,X,n,n,n']
+THOROUGH = ['a,A2L,n,a,n', 'F3,a,X,b,b', 'a,F2,A2,b,b', 'F2,a,a,X,B,c', 'a,r,X,n,n', 'a,A2L,X,b', 'a,a,A3r,b,b', 'A2,r,b,n', 'a,L,a,A2,b', 'a,A2r,a,X,B,c', 'r:u,a,a:u,b,b:u']
 DIFF = [
     dict(skel='a,r,a,n,n,n,c', sizes=[10, 2 ** 30 + 5, 20], budgets=[]),
     dict(skel='a,A2,b,c', sizes=[100, 200, 300], budgets=[10 ** 6]),
